@@ -11,12 +11,13 @@
 (*   accepted iff the shifted labels are exactly 0..max.                   *)
 (***************************************************************************)
 EXTENDS Integers, Sequences, FiniteSets, TLC
-CONSTANTS MaxS, MaxF, MaxLabel
+CONSTANTS MaxS, MaxF, MaxLabel,
+          Ids       \* sample identifiers (int32): include values above 2^24, which single precision cannot hold
 FVals == {<<0, 1>>, <<-5, 4>>, <<3, 2>>}      \* 0, -1.25, 1.5 : exactly representable in float32
 VARIABLES ns, nf, recs
 vars == <<ns, nf, recs>>
 Init == /\ ns \in 1..MaxS /\ nf \in 1..MaxF
-        /\ recs \in [1..ns -> [id : 1..MaxS, label : 1..MaxLabel, feat : [1..nf -> FVals]]]
+        /\ recs \in [1..ns -> [id : Ids, label : 1..MaxLabel, feat : [1..nf -> FVals]]]
         /\ \A a, c \in 1..ns : a # c => recs[a].id # recs[c].id
 Next == UNCHANGED vars
 Spec == Init /\ [][Next]_vars
